@@ -67,9 +67,11 @@ Record perr := mk_perr {
   e_status : option Z;                       (* Some n: the error has StatusCode() = n *)
   e_multi : bool;                            (* it has Errors() *)
   e_msg : string;                            (* Error() *)
-  e_buried : option Z                        (* Some n: not the error itself but an error it wraps
+  e_buried : option Z;                       (* Some n: not the error itself but an error it wraps
                                                 (%w, errors.Join, Unwrap() []error, an As method,
                                                 an entry of Errors()) has StatusCode() = n *)
+  e_timeout : bool                            (* the error, or one it wraps, has Timeout() = true
+                                                (context.DeadlineExceeded, *url.Error, net.Error) *)
 }.
 (* an error found in gin's c.Errors when the endpoint handler starts *)
 Inductive ctx_err := CEPlain | CEStatus (n : Z) | CEMeta.
@@ -112,12 +114,23 @@ Definition cond (i : input) : bool :=
 
 (* select on requestCtx.Done(): a missing error is replaced by ErrInternalError *)
 Definition internal_error : perr :=
-  {| e_status := None; e_multi := false; e_msg := "internal server error"; e_buried := None |}.
+  {| e_status := None; e_multi := false; e_msg := "internal server error"; e_buried := None; e_timeout := false |}.
 Definition eff_err (i : input) : option perr :=
   match i_err i with
   | Some e => Some e
   | None => if i_ctx_done i then Some internal_error else None
   end.
+(* server.DefaultToHTTPError, the translator of EndpointHandler / CustomEndpointHandler: it
+   does not look at the error at all (in particular not at e_timeout) *)
+Definition stock_translator (e : perr) : Z := 500.
+
+(* core.KrakendHeaderValue of a process: "Version <build>" from the build, replaced by the
+   constant "Version undefined" once a gin engine was made by NewEngine with the option
+   hide_version_header (the value is process-global: every handler, gin or mux, created before
+   or after, shows it from then on) *)
+Definition version_value (build : string) (hide : bool) : string :=
+  if hide then "Version undefined" else build.
+
 (* both handlers ask the error ITSELF (type assertion err.(responseError)), they do not walk
    what it wraps: e_buried is not read *)
 Definition err_status (i : input) (e : perr) : Z :=
